@@ -34,8 +34,13 @@ def _isolate_parts(mod):
             try:
                 return __fn(ck, *args, **kw)
             except Exception as ex:
-                traceback.print_exc()
                 lab = ", ".join(repr(x)[:30] for x in args if isinstance(x, (int, str, tuple)))
+                if type(ex).__name__ == "OutOfDate":
+                    # E2: the scalar kernel no longer has a shape the AST extractor translates: that part is not decided for
+                    # this tree (inconclusive, never a pass); the E1 obligations at concrete N still decide the property
+                    ck.add_direct(f"E2/{__nm.strip('_')}/encoding", "unknown", family="E2 scalar kernels (symbolic N)", detail=f"E2 extractor does not recognise the current source: {ex}")
+                    return None
+                traceback.print_exc()
                 ck.error(f"part {__nm}({lab}) could not be encoded: {ex!r}"[:500])
                 return None
 
